@@ -153,17 +153,21 @@ def main():
 
     known = core.load_known()
     violations = []
+    printed = set()
     for f in res.failures:
         k = known_match(pid, f, known)
         if k:
-            print("KNOWN-FINDING: property=%s %s" % (pid, k.get("what", f["what"])))
+            line = "KNOWN-FINDING: property=%s %s" % (pid, k.get("what", f["what"]))
+            if line not in printed:
+                print(line)
+                printed.add(line)
         else:
             violations.append(f)
     os.makedirs(os.path.join(VERIF, "replays"), exist_ok=True)
     exit_code = 0
     if violations:
         path = os.path.join(VERIF, "replays", "%s-%s-%d.json" % (pid, tier, seed))
-        json.dump(core.jsonable(dict(property=pid, tree=core.tree_hash(), failures=violations[:20],
+        json.dump(core.jsonable(dict(property=pid, tree=core.tree_hash(), failures=violations[:60],
                                      broken=broken)), open(path, "w"), indent=1)
         print("VIOLATION property=%s replay=%s" % (pid, path))
         for f in violations[:5]:
